@@ -59,7 +59,7 @@ fn build(cfg: &[u16]) -> Built {
     for i in 1..users {
         if s.chance(60) {
             setup.push((format!("n{}", i), "JOIN #c1".to_string()));
-            let flags = ["v", "h", "o", "ho", "hv", "ov", "ao", "hov", "a"][s.pick(9)];
+            let flags = ["v", "h", "o", "ho", "hv", "ov", "ao", "hov", "a", "v", "v"][s.pick(11)];
             for f in flags.chars() {
                 setup.push(("n0".to_string(), format!("MODE #c1 +{} n{}", f, i)));
             }
@@ -79,6 +79,12 @@ fn build(cfg: &[u16]) -> Built {
         if s.chance(40) {
             setup.push((format!("n{}", i), format!("MODE n{} +{}", i, ["w", "i", "iw"][s.pick(3)])));
         }
+    }
+    // somebody has already changed nick before the history starts (ranks, invitations, modes and
+    // memberships were acquired under the old one)
+    if s.chance(40) {
+        let i = 1 + s.pick(users - 1);
+        setup.push((format!("n{}", i), format!("NICK n{}r", i)));
     }
     Built { cfg: c, prof, prelude_users: users, setup }
 }
